@@ -77,18 +77,32 @@ theorem readLine_flags (s : Sock) : (s.readLine).2.closed = s.closed ∧ ((s.rea
 
 /-! ## the header block -/
 
-/-- a complete header block at the head of a stream: LF-terminated lines, the last of which is the empty line
-    (`"\r"` as the code compares it: a C string), and what follows it -/
-inductive HeaderBlock : Bytes → Bytes → Prop
-  | empty (last rest : Bytes) : (∀ c ∈ last, c ≠ 10) → cstr last = [13] → HeaderBlock (last ++ 10 :: rest) rest
-  | line (l tail rest : Bytes) : (∀ c ∈ l, c ≠ 10) → cstr l ≠ [13] → HeaderBlock tail rest →
-      HeaderBlock (l ++ 10 :: tail) rest
+/-- what one line of the header block does to (dictionary, current field name, current field value): a line that
+    starts with white space continues the current field (its trimmed text is appended to the *first* line's value);
+    otherwise the trimmed line is `name ":" value` and stores the trimmed value under the name; `none`: neither -/
+def foldHeaderLine (st : Dic × Bytes × Bytes) (line : Bytes) : Option (Dic × Bytes × Bytes) :=
+  if cIsSpace (line.getD 0 0) then some (setHeader st.1 st.2.1 (st.2.2 ++ trimmed line), st.2.1, st.2.2)
+  else
+    match findByte 58 (cstr (trimmed line)) with
+    | none => none
+    | some i => some (setHeader st.1 ((trimmed line).take i) (trimmed ((trimmed line).drop (i + 1))),
+                      (trimmed line).take i, trimmed ((trimmed line).drop (i + 1)))
+
+/-- a complete header block at the head of a stream, and the dictionary it denotes: LF-terminated lines, each
+    folded into the state by `foldHeaderLine`, up to the empty line (`"\r"` as the code compares it: a C string);
+    `HeaderBlockD tail rest st h`: `tail` = block ++ `rest`, and starting from `st` the block yields `h` -/
+inductive HeaderBlockD : Bytes → Bytes → (Dic × Bytes × Bytes) → Dic → Prop
+  | empty (last rest : Bytes) (st : Dic × Bytes × Bytes) : (∀ c ∈ last, c ≠ 10) → cstr last = [13] →
+      HeaderBlockD (last ++ 10 :: rest) rest st st.1
+  | line (l tail rest : Bytes) (st st' : Dic × Bytes × Bytes) (h : Dic) : (∀ c ∈ l, c ≠ 10) → cstr l ≠ [13] →
+      foldHeaderLine st l = some st' → HeaderBlockD tail rest st' h → HeaderBlockD (l ++ 10 :: tail) rest st h
 
 theorem headersStep_cases (x : HSt) :
     (headersStep x = .ok (.done ((x.s.readLine).2, x.h)) ∧ cstr (x.s.readLine).1 = [13]) ∨
     (∃ h', headersStep x = .ok (.done ({ (x.s.readLine).2 with closed := true }, h'))) ∨
-    (∃ y, headersStep x = .ok (.next y) ∧ y.s = (x.s.readLine).2 ∧ cstr (x.s.readLine).1 ≠ [13] ∧ (x.s.readLine).1 ≠ []) := by
-  unfold headersStep
+    (∃ y, headersStep x = .ok (.next y) ∧ y.s = (x.s.readLine).2 ∧ cstr (x.s.readLine).1 ≠ [13] ∧ (x.s.readLine).1 ≠ [] ∧
+      foldHeaderLine (x.h, x.name, x.value) (x.s.readLine).1 = some (y.h, y.name, y.value)) := by
+  unfold headersStep foldHeaderLine
   simp only []
   by_cases h13 : (cstr x.s.readLine.1 == [13]) = true
   · left
@@ -102,7 +116,7 @@ theorem headersStep_cases (x : HSt) :
     by_cases hsp : cIsSpace (x.s.readLine.1.getD 0 0) = true
     · right
       simp only [hsp, if_true]
-      refine ⟨_, rfl, rfl, hne, ?_⟩
+      refine ⟨_, rfl, rfl, hne, ?_, rfl⟩
       intro hnil
       rw [hnil] at hsp
       exact absurd hsp (by decide)
@@ -117,8 +131,12 @@ theorem headersStep_cases (x : HSt) :
         rw [substring?_ok _ _ _ (Nat.zero_le _) (by omega)]
         simp only []
         rw [substring?_ok _ _ _ (by omega) (Nat.le_refl _)]
-        simp only []
-        refine ⟨_, rfl, rfl, hne, ?_⟩
+        simp only [List.drop_zero, Nat.sub_zero]
+        have e : ((trimmed x.s.readLine.1).drop (i + 1)).take ((trimmed x.s.readLine.1).length - (i + 1)) =
+            (trimmed x.s.readLine.1).drop (i + 1) := by
+          apply List.take_of_length_le; simp
+        rw [e]
+        refine ⟨_, rfl, rfl, hne, ?_, rfl⟩
         intro hnil
         rw [hnil] at hf
         have : findByte 58 (cstr (trimmed ([] : Bytes))) = none := by decide
@@ -140,7 +158,7 @@ theorem iterate_headers_unhealthy : ∀ (fuel : Nat) (x : HSt) (r : Sock × Dic)
       intro hh
       exact hu ⟨herr hh.1, by rw [← hcl]; exact hh.2⟩
     simp only [iterate] at h
-    rcases headersStep_cases x with ⟨h1, _⟩ | ⟨h', h1⟩ | ⟨y, h1, hy, _, hne⟩
+    rcases headersStep_cases x with ⟨h1, _⟩ | ⟨h', h1⟩ | ⟨y, h1, hy, _, hne, _⟩
     · rw [h1] at h
       simp only [pure, Except.pure, Except.ok.injEq] at h
       rw [← h]; exact hu2
@@ -150,22 +168,24 @@ theorem iterate_headers_unhealthy : ∀ (fuel : Nat) (x : HSt) (r : Sock × Dic)
       intro hh; simp [Healthy] at hh
     · exact absurd hline hne
 
-/-- if the header reader ends on a healthy socket, it consumed a complete header block -/
+/-- if the header reader ends on a healthy socket, it consumed a complete header block, and the dictionary it
+    returns is the one that block denotes -/
 theorem iterate_headers_inv : ∀ (fuel : Nat) (x : HSt) (r : Sock × Dic),
-    Healthy x.s → iterate headersStep fuel x = .ok r → Healthy r.1 → HeaderBlock x.s.inp r.1.inp := by
+    Healthy x.s → iterate headersStep fuel x = .ok r → Healthy r.1 →
+    HeaderBlockD x.s.inp r.1.inp (x.h, x.name, x.value) r.2 := by
   intro fuel
   induction fuel with
   | zero => intro x r _ h; simp [iterate, throw, throwThe, MonadExceptOf.throw] at h
   | succ fuel ih =>
     intro x r hx h hr
     simp only [iterate] at h
-    rcases headersStep_cases x with ⟨h1, h13⟩ | ⟨h', h1⟩ | ⟨y, h1, hy, h13, _⟩
+    rcases headersStep_cases x with ⟨h1, h13⟩ | ⟨h', h1⟩ | ⟨y, h1, hy, h13, _, hfold⟩
     · rw [h1] at h
       simp only [pure, Except.pure, Except.ok.injEq] at h
       subst h
       obtain ⟨e1, e2, _, _⟩ := readLine_inv x.s hx hr.1
       rw [e1]
-      exact HeaderBlock.empty _ _ e2 h13
+      exact HeaderBlockD.empty _ _ (x.h, x.name, x.value) e2 h13
     · rw [h1] at h
       simp only [pure, Except.pure, Except.ok.injEq] at h
       subst h
@@ -181,8 +201,7 @@ theorem iterate_headers_inv : ∀ (fuel : Nat) (x : HSt) (r : Sock × Dic),
       rw [e1]
       have := ih y r (by rw [hy]; exact hyh) h hr
       rw [hy] at this
-      exact HeaderBlock.line _ _ _ e2 h13 this
-
+      exact HeaderBlockD.line _ _ _ _ _ _ e2 h13 hfold this
 
 /-! ## the body -/
 
@@ -511,54 +530,181 @@ theorem iterate_body_chunked_inv : ∀ (fuel : Nat) (x : BodySt) (r : Sock × By
 
 /-! ## `readBody`, `read`, one pass of `serve` -/
 
-/-- a complete body on the wire, as the header dictionary frames it: nothing without Content-Length / chunked (or
-    with `Content-Length: 0`); the chunk sequence for `Transfer-Encoding: chunked`; otherwise exactly the announced
-    number of bytes -/
+/-! ### Content-Length values -/
+
+/-- the number written by a string of decimal digits (no wrap-around, unbounded) -/
+def decFold : Bytes → Nat → Nat
+  | [], acc => acc
+  | c :: t, acc => decFold t (acc * 10 + (c.toNat - 48))
+
+/-- `some n` for a non-empty string of decimal digits writing `n`, `none` for anything else -/
+def decimalValue (v : Bytes) : Option Nat :=
+  if v.length ≥ 1 ∧ v.all (fun c => decide (48 ≤ c) && decide (c ≤ 57)) = true then some (decFold v 0) else none
+
+theorem decFold_ge (v : Bytes) : ∀ acc, acc ≤ decFold v acc := by
+  induction v with
+  | nil => intro acc; exact Nat.le_refl _
+  | cons c t ih => intro acc; have := ih (acc * 10 + (c.toNat - 48)); simp only [decFold]; omega
+
+theorem decFold_lt (v : Bytes) (hd : v.all (fun c => decide (48 ≤ c) && decide (c ≤ 57)) = true) :
+    ∀ acc, decFold v acc < (acc + 1) * 10 ^ v.length := by
+  induction v with
+  | nil => intro acc; simp [decFold]
+  | cons c t ih =>
+    intro acc
+    simp only [List.all_cons, Bool.and_eq_true, decide_eq_true_eq] at hd
+    have hc : c.toNat - 48 ≤ 9 := by
+      have h2 : c.toNat ≤ 57 := by
+        have := hd.1.2
+        exact UInt8.le_iff_toNat_le.mp this
+      omega
+    have := ih (by simpa using hd.2) (acc * 10 + (c.toNat - 48))
+    simp only [decFold, List.length_cons, Nat.pow_succ]
+    calc decFold t (acc * 10 + (c.toNat - 48)) < (acc * 10 + (c.toNat - 48) + 1) * 10 ^ t.length := this
+      _ ≤ ((acc + 1) * 10) * 10 ^ t.length := Nat.mul_le_mul_right _ (by omega)
+      _ = (acc + 1) * (10 ^ t.length * 10) := by rw [Nat.mul_assoc, Nat.mul_comm 10]
+
+/-- on decimal digits `myatoi`'s loop computes the number written, as long as that number fits -/
+theorem atoiDigits_dec (bits : Nat) (hb : 1 ≤ bits) (v : Bytes)
+    (hd : v.all (fun c => decide (48 ≤ c) && decide (c ≤ 57)) = true) :
+    ∀ acc : Nat, decFold v acc < 2 ^ (bits - 1) → atoiDigits bits v (acc : Int) = (decFold v acc : Int) := by
+  induction v with
+  | nil => intro acc _; rfl
+  | cons c t ih =>
+    intro acc hlt
+    simp only [List.all_cons, Bool.and_eq_true, decide_eq_true_eq] at hd
+    have hdig : 48 ≤ c ∧ c ≤ 57 := hd.1
+    simp only [atoiDigits, hdig, and_self, if_true, decFold] at hlt ⊢
+    have hge := decFold_ge t (acc * 10 + (c.toNat - 48))
+    have hsmall : acc * 10 + (c.toNat - 48) < 2 ^ (bits - 1) := by omega
+    have hw : wrap bits (10 * (acc : Int) + ((c.toNat - 48 : Nat) : Int)) = ((acc * 10 + (c.toNat - 48) : Nat) : Int) := by
+      unfold wrap
+      have hp : (2 : Int) ^ bits = 2 * 2 ^ (bits - 1) := by
+        have : bits = (bits - 1) + 1 := by omega
+        conv => lhs; rw [this, Int.pow_succ]
+        omega
+      have hpos : (0 : Int) < 2 ^ (bits - 1) := Int.pow_pos (by decide)
+      have hcast : ((2 : Int) ^ (bits - 1)) = ((2 ^ (bits - 1) : Nat) : Int) := by simp
+      rw [hp]
+      have hx : (0 : Int) ≤ 10 * (acc : Int) + ((c.toNat - 48 : Nat) : Int) := by omega
+      have hx2 : 10 * (acc : Int) + ((c.toNat - 48 : Nat) : Int) < 2 ^ (bits - 1) := by rw [hcast]; omega
+      rw [Int.emod_eq_of_lt (by omega) (by omega)]
+      omega
+    rw [hw]
+    exact ih (by simpa using hd.2) _ hlt
+
+theorem digits_no_nul (v : Bytes) (hd : v.all (fun c => decide (48 ≤ c) && decide (c ≤ 57)) = true) : cstr v = v := by
+  apply cstr_of_no_nul
+  intro c hc h0
+  have := (List.all_eq_true.mp hd) c hc
+  rw [h0] at this
+  exact absurd this (by decide)
+
+/-- what the reader's Content-Length check guarantees: the value is a decimal number below 2^31, and both of the
+    code's conversions (`(int)`, `(Long)`) read exactly that number -/
+theorem validLength_spec (v : Bytes) (h : validLength v = true) :
+    ∃ n, decimalValue v = some n ∧ n < 2 ^ 31 ∧ myatoi 32 (cstr v) = (n : Int) := by
+  unfold validLength at h
+  simp only [Bool.and_eq_true, decide_eq_true_eq] at h
+  obtain ⟨⟨⟨h1, h10⟩, hd⟩, h64⟩ := h
+  have hc := digits_no_nul v hd
+  rw [hc] at h64
+  -- myatoi on a digit string is the digit loop
+  have hhead : ∀ bits, myatoi bits v = atoiDigits bits v 0 := by
+    intro bits
+    cases v with
+    | nil => simp at h1
+    | cons a t =>
+      have ha := (List.all_eq_true.mp hd) a (by simp)
+      simp only [Bool.and_eq_true, decide_eq_true_eq] at ha
+      unfold myatoi
+      split
+      · rename_i heq; simp only [List.cons.injEq] at heq; rw [heq.1] at ha; exact absurd ha.1 (by decide)
+      · rename_i heq; simp only [List.cons.injEq] at heq; rw [heq.1] at ha; exact absurd ha.1 (by decide)
+      · rfl
+  have hbound : decFold v 0 < 2 ^ 63 := by
+    have := decFold_lt v hd 0
+    have hp : 10 ^ v.length ≤ 10 ^ 10 := Nat.pow_le_pow_right (by decide) h10
+    have : (10 : Nat) ^ 10 < 2 ^ 63 := by decide
+    omega
+  have h64' := atoiDigits_dec 64 (by decide) v hd 0 (by simpa using hbound)
+  rw [hhead 64] at h64
+  simp only [Int.natCast_zero] at h64'
+  rw [h64'] at h64
+  have hn : decFold v 0 < 2 ^ 31 := by
+    have : (2 : Nat) ^ 31 = 2147483648 := by decide
+    omega
+  refine ⟨decFold v 0, ?_, hn, ?_⟩
+  · unfold decimalValue; simp [h1, hd]
+  · rw [hc, hhead 32]
+    have := atoiDigits_dec 32 (by decide) v hd 0 (by simpa using hn)
+    simpa using this
+
+/-- a complete body on the wire, as the header dictionary frames it: the chunk sequence for
+    `Transfer-Encoding: chunked` (whatever Content-Length says); else, with Content-Length, exactly the decimal
+    number of bytes written there; else nothing -/
 def BodyFramed (h : Dic) (wire body rest : Bytes) : Prop :=
-  if (hasHeader h sContentLength && cstr (header h sContentLength) == [48]) = true then body = [] ∧ wire = rest
-  else if (!hasHeader h sContentLength && !(cstr (header h sTransferEncoding) == sChunked)) = true then
-    body = [] ∧ wire = rest
-  else if (cstr (header h sTransferEncoding) == sChunked) = true then
-    (myatoi 32 (cstr (header h sContentLength)) = 0 → ChunkedWire wire body rest)
-  else
-    wire = body ++ rest ∧ myatoi 32 (cstr (header h sContentLength)) ≠ 0 ∧
-    (0 < myatoi 32 (cstr (header h sContentLength)) → (body.length : Int) = myatoi 32 (cstr (header h sContentLength)))
+  if (cstr (header h sTransferEncoding) == sChunked) = true then ChunkedWire wire body rest
+  else if hasHeader h sContentLength = true then
+    ∃ n, decimalValue (header h sContentLength) = some n ∧ n < 2 ^ 31 ∧ body.length = n ∧ wire = body ++ rest
+  else body = [] ∧ wire = rest
 
 theorem readBody_inv (s : Sock) (h : Dic) (r : Sock × Bytes) (hr : readBody s h = .ok r) (hh : Healthy r.1) :
-    BodyFramed h s.inp r.2 r.1.inp ∧ Healthy s := by
+    BodyFramed h s.inp r.2 r.1.inp ∧ Healthy s ∧
+    (hasHeader h sContentLength = true → validLength (header h sContentLength) = true) := by
   unfold readBody at hr
-  unfold BodyFramed
   simp only [] at hr
-  by_cases h1 : (hasHeader h sContentLength && cstr (header h sContentLength) == [48]) = true
-  · simp only [h1, if_true, pure, Except.pure, Except.ok.injEq] at hr ⊢
+  by_cases h0 : (hasHeader h sContentLength && !validLength (header h sContentLength)) = true
+  · simp only [h0, if_true, pure, Except.pure, Except.ok.injEq] at hr
     subst hr
-    exact ⟨⟨rfl, rfl⟩, hh⟩
-  · simp only [h1, Bool.false_eq_true, if_false] at hr ⊢
-    by_cases h2 : (!hasHeader h sContentLength && !(cstr (header h sTransferEncoding) == sChunked)) = true
-    · simp only [h2, if_true, pure, Except.pure, Except.ok.injEq] at hr ⊢
-      subst hr
-      exact ⟨⟨rfl, rfl⟩, hh⟩
-    · simp only [h2, Bool.false_eq_true, if_false] at hr ⊢
-      have hs : Healthy s := by
-        by_cases hs : Healthy s
-        · exact hs
-        · have := iterate_body_unhealthy _ _ _ r hs hr
-          simp only at this
-          rw [this] at hh
-          exact absurd hh hs
-      refine ⟨?_, hs⟩
+    simp [Healthy] at hh
+  · simp only [h0, Bool.false_eq_true, if_false] at hr
+    have hvalid : hasHeader h sContentLength = true → validLength (header h sContentLength) = true := by
+      intro hc
+      simp only [hc, Bool.true_and, Bool.not_eq_true', Bool.not_eq_false] at h0
+      exact h0
+    have hsock : ∀ ch fuel x, iterate (bodyStep ch) fuel x = .ok r → Healthy x.s := by
+      intro ch fuel x hit
+      by_cases hs : Healthy x.s
+      · exact hs
+      · have := iterate_body_unhealthy ch fuel x r hs hit
+        rw [this] at hh
+        exact absurd hh hs
+    have key : BodyFramed h s.inp r.2 r.1.inp ∧ Healthy s := by
+      unfold BodyFramed
       by_cases hc : (cstr (header h sTransferEncoding) == sChunked) = true
       · simp only [hc, if_true] at hr ⊢
-        intro hz
-        obtain ⟨d, e1, e2⟩ := iterate_body_chunked_inv _ _ r hr hh hz
+        obtain ⟨d, e1, e2⟩ := iterate_body_chunked_inv _ _ r hr hh rfl
         simp only [List.nil_append] at e1 e2
+        refine ⟨?_, hsock _ _ _ hr⟩
         rw [e1]; exact e2
-      · have hc' : (cstr (header h sTransferEncoding) == sChunked) = false := by simpa using hc
-        simp only [hc', Bool.false_eq_true, if_false] at hr ⊢
-        obtain ⟨g, e1, e2, e3, e4⟩ := iterate_body_plain_inv _ _ r hr hh
-        simp only [List.nil_append] at e1 e2 e3 e4
-        rw [e2]
-        exact ⟨e1, fun h0 => e4 h0, e3⟩
+      · simp only [hc, Bool.false_eq_true, if_false] at hr ⊢
+        by_cases hcl : hasHeader h sContentLength = true
+        · simp only [hcl, if_true] at hr ⊢
+          obtain ⟨n, hn1, hn2, hn3⟩ := validLength_spec _ (hvalid hcl)
+          by_cases hz : (cstr (header h sContentLength) == [48]) = true
+          · simp only [hz, if_true, pure, Except.pure, Except.ok.injEq] at hr
+            subst hr
+            have hz' : cstr (header h sContentLength) = [48] := by simpa using hz
+            rw [hz', myatoi_zero] at hn3
+            have : n = 0 := by omega
+            subst this
+            exact ⟨⟨0, hn1, hn2, rfl, rfl⟩, hh⟩
+          · simp only [hz, Bool.false_eq_true, if_false] at hr
+            obtain ⟨g, e1, e2, e3, e4⟩ := iterate_body_plain_inv _ _ r hr hh
+            simp only [List.nil_append] at e1 e2 e3 e4
+            have hnpos : 0 < n := by
+              rcases Nat.eq_zero_or_pos n with h0n | hp
+              · exfalso; apply e4; rw [hn3, h0n]; rfl
+              · exact hp
+            have hlen := e3 (by rw [hn3]; omega)
+            refine ⟨⟨n, hn1, hn2, ?_, ?_⟩, hsock _ _ _ hr⟩
+            · rw [e2]; rw [hn3] at hlen; omega
+            · rw [e2]; exact e1
+        · simp only [hcl, Bool.false_eq_true, if_false, pure, Except.pure, Except.ok.injEq] at hr ⊢
+          subst hr
+          exact ⟨⟨rfl, rfl⟩, hh⟩
+    exact ⟨key.1, key.2, hvalid⟩
 
 theorem expectContinue_healthy (s : Sock) (h : Dic) (hh : Healthy (expectContinue s h)) : Healthy s := by
   have hw : ∀ b : Bytes, Healthy (s.write b) → Healthy s := by
@@ -585,7 +731,7 @@ theorem read_complete (s : Sock) (r : Req) (s' : Sock) (hs : Healthy s)
     (h : AslModel.HttpParse.read s = .ok (r, s')) (hd : Healthy s') (hm : r.method ≠ []) :
     ∃ line tail wire, s.inp = line ++ 10 :: tail ∧ (∀ c ∈ line, c ≠ 10) ∧
       parseRequestLine line = .ok (some ⟨r.method, r.res, r.proto⟩) ∧
-      HeaderBlock tail wire ∧ BodyFramed r.headers wire r.body s'.inp := by
+      HeaderBlockD tail wire ([], [], []) r.headers ∧ BodyFramed r.headers wire r.body s'.inp := by
   unfold AslModel.HttpParse.read at h
   simp only [] at h
   split at h
@@ -626,14 +772,15 @@ theorem read_complete (s : Sock) (r : Req) (s' : Sock) (hs : Healthy s)
               simp only [pure, Except.pure, Except.ok.injEq, Prod.mk.injEq] at h
               obtain ⟨hreq, hsock⟩ := h
               subst hsock
-              obtain ⟨hbf, hE⟩ := readBody_inv _ _ b hb hd
+              obtain ⟨hbf, hE, _⟩ := readBody_inv _ _ b hb hd
               have hH := expectContinue_healthy _ _ hE
               rw [expectContinue_inp] at hbf
               unfold readHeaders at hhs
               have hblk := iterate_headers_inv _ _ hs' ⟨hle, l3⟩ hhs hH
               simp only at hblk
-              refine ⟨s.readLine.1, s.readLine.2.inp, hs'.1.inp, l1, l2, ?_, hblk, ?_⟩
+              refine ⟨s.readLine.1, s.readLine.2.inp, hs'.1.inp, l1, l2, ?_, ?_, ?_⟩
               · rw [hrl, ← hreq]
+              · rw [← hreq]; exact hblk
               · rw [← hreq]; exact hbf
 
 /-- one pass of the `serve` loop hands a request to the application only if `read` returned it, with a method, on
@@ -779,13 +926,18 @@ theorem readBody_suffix (s : Sock) (h : Dic) (r : Sock × Bytes) (hr : readBody 
   split at hr
   · simp only [pure, Except.pure, Except.ok.injEq] at hr; subst hr; exact ⟨[], by simp⟩
   · split at hr
-    · simp only [pure, Except.pure, Except.ok.injEq] at hr; subst hr; exact ⟨[], by simp⟩
     · exact iterate_body_suffix _ _ _ r hr
+    · split at hr
+      · split at hr
+        · simp only [pure, Except.pure, Except.ok.injEq] at hr; subst hr; exact ⟨[], by simp⟩
+        · exact iterate_body_suffix _ _ _ r hr
+      · simp only [pure, Except.pure, Except.ok.injEq] at hr; subst hr; exact ⟨[], by simp⟩
 
-theorem headerBlock_suffix {tail wire : Bytes} (h : HeaderBlock tail wire) : ∃ blk, tail = blk ++ wire := by
-  induction h with
-  | empty last rest _ _ => exact ⟨last ++ [10], by simp⟩
-  | line l tail rest _ _ _ ih =>
+theorem headerBlock_suffix {tail wire : Bytes} {st : Dic × Bytes × Bytes} {h : Dic} (hb : HeaderBlockD tail wire st h) :
+    ∃ blk, tail = blk ++ wire := by
+  induction hb with
+  | empty last rest st _ _ => exact ⟨last ++ [10], by simp⟩
+  | line l tail rest st st' h _ _ _ _ ih =>
     obtain ⟨blk, hb⟩ := ih
     exact ⟨l ++ 10 :: blk, by rw [hb]; simp⟩
 
@@ -793,7 +945,7 @@ theorem headerBlock_suffix {tail wire : Bytes} (h : HeaderBlock tail wire) : ∃
 def FramedIn (stream : Bytes) (q : Req) : Prop :=
   ∃ pre line tail wire post, stream = pre ++ (line ++ 10 :: tail) ∧ (∀ c ∈ line, c ≠ 10) ∧
     parseRequestLine line = .ok (some ⟨q.method, q.res, q.proto⟩) ∧
-    HeaderBlock tail wire ∧ BodyFramed q.headers wire q.body post
+    HeaderBlockD tail wire ([], [], []) q.headers ∧ BodyFramed q.headers wire q.body post
 
 /-- `read_complete` with the position bookkeeping: the framed request and where reading continues -/
 theorem read_complete_at (stream pre : Bytes) (s : Sock) (r : Req) (s' : Sock) (hp : stream = pre ++ s.inp)
@@ -841,7 +993,7 @@ theorem read_complete_at (stream pre : Bytes) (s : Sock) (r : Req) (s' : Sock) (
               obtain ⟨w, hw⟩ := readBody_suffix _ _ b hb
               rw [expectContinue_inp] at hw
               obtain ⟨w1, hw1⟩ := readLine_suffix s
-              obtain ⟨_, hE⟩ := readBody_inv _ _ b hb hd
+              obtain ⟨_, hE, _⟩ := readBody_inv _ _ b hb hd
               have hH := expectContinue_healthy _ _ hE
               have hle : (s.readLine).2.err = 0 := by
                 simp only [Bool.or_eq_true, bne_iff_ne, ne_eq, not_or, Decidable.not_not] at hcond
@@ -943,5 +1095,242 @@ theorem serve_framed (stream : Bytes) (res : Sock × List Req) (h : serve { inp 
     ∀ q ∈ res.2, FramedIn stream q := by
   unfold serve at h
   exact iterate_serve_framed stream _ _ res ⟨[], rfl⟩ (by simp) h
+
+
+/-! ## input is consumed from the front only: what is left is a suffix of what was there -/
+
+theorem iterate_headers_suffix : ∀ (fuel : Nat) (x : HSt) (r : Sock × Dic),
+    iterate headersStep fuel x = .ok r → ∃ w, x.s.inp = w ++ r.1.inp := by
+  intro fuel
+  induction fuel with
+  | zero => intro x r h; simp [iterate, throw, throwThe, MonadExceptOf.throw] at h
+  | succ fuel ih =>
+    intro x r h
+    simp only [iterate] at h
+    obtain ⟨w, hw⟩ := readLine_suffix x.s
+    rcases headersStep_cases x with ⟨h1, _⟩ | ⟨h', h1⟩ | ⟨y, h1, hy, _, _, _⟩
+    · rw [h1] at h
+      simp only [pure, Except.pure, Except.ok.injEq] at h
+      subst h; exact ⟨w, hw⟩
+    · rw [h1] at h
+      simp only [pure, Except.pure, Except.ok.injEq] at h
+      subst h; exact ⟨w, hw⟩
+    · rw [h1] at h
+      simp only [] at h
+      obtain ⟨w2, hw2⟩ := ih y r h
+      rw [hy] at hw2
+      exact ⟨w ++ w2, by rw [List.append_assoc, ← hw2]; exact hw⟩
+
+theorem read_suffix (s : Sock) (r : Req × Sock) (h : AslModel.HttpParse.read s = .ok r) : ∃ w, s.inp = w ++ r.2.inp := by
+  unfold AslModel.HttpParse.read at h
+  simp only [] at h
+  obtain ⟨w1, hw1⟩ := readLine_suffix s
+  split at h
+  · simp only [pure, Except.pure, Except.ok.injEq] at h; subst h; exact ⟨w1, hw1⟩
+  · cases hrl : parseRequestLine s.readLine.1 with
+    | error e => rw [hrl] at h; simp [bind, Except.bind] at h
+    | ok rl? =>
+      rw [hrl] at h
+      simp only [bind, Except.bind] at h
+      cases rl? with
+      | none => simp only [pure, Except.pure, Except.ok.injEq] at h; subst h; exact ⟨w1, hw1⟩
+      | some rl =>
+        simp only [] at h
+        cases hhs : readHeaders s.readLine.2 with
+        | error e => rw [hhs] at h; simp at h
+        | ok hs' =>
+          rw [hhs] at h
+          simp only [] at h
+          cases hb : readBody (expectContinue hs'.1 hs'.2) hs'.2 with
+          | error e => rw [hb] at h; simp at h
+          | ok b =>
+            rw [hb] at h
+            simp only [] at h
+            cases ht : parseTarget rl.res with
+            | error e => rw [ht] at h; simp at h
+            | ok t =>
+              rw [ht] at h
+              simp only [pure, Except.pure, Except.ok.injEq] at h
+              subst h
+              unfold readHeaders at hhs
+              obtain ⟨w2, hw2⟩ := iterate_headers_suffix _ _ hs' hhs
+              obtain ⟨w3, hw3⟩ := readBody_suffix _ _ b hb
+              rw [expectContinue_inp] at hw3
+              simp only at hw2
+              exact ⟨w1 ++ w2 ++ w3, by rw [hw1, hw2, hw3]; simp only [List.append_assoc]⟩
+
+theorem serveStep_suffix (x : SrvSt) (st : Step SrvSt (Sock × List Req)) (h : serveStep x = .ok st) :
+    ∃ w, x.s.inp = w ++ (match st with | .done r => r.1.inp | .next y => y.s.inp) := by
+  unfold serveStep at h
+  split at h
+  · simp only [pure, Except.pure, Except.ok.injEq] at h; subst h; exact ⟨[], by simp⟩
+  · cases hrd : AslModel.HttpParse.read x.s with
+    | error e => rw [hrd] at h; simp [bind, Except.bind] at h
+    | ok rs =>
+      rw [hrd] at h
+      simp only [bind, Except.bind] at h
+      obtain ⟨w, hw⟩ := read_suffix x.s rs hrd
+      have hinp := respond_inp rs.1 rs.2
+      split at h
+      · simp only [pure, Except.pure, Except.ok.injEq] at h; subst h; exact ⟨w, hw⟩
+      · split at h <;> (simp only [pure, Except.pure, Except.ok.injEq] at h; subst h; exact ⟨w, by simp only [hinp]; exact hw⟩)
+
+theorem serve_suffix (s : Sock) (r : Sock × List Req) (h : serve s = .ok r) : ∃ w, s.inp = w ++ r.1.inp := by
+  unfold serve at h
+  have : ∀ (fuel : Nat) (x : SrvSt) (r : Sock × List Req), iterate serveStep fuel x = .ok r → ∃ w, x.s.inp = w ++ r.1.inp := by
+    intro fuel
+    induction fuel with
+    | zero => intro x r h; simp [iterate, throw, throwThe, MonadExceptOf.throw] at h
+    | succ fuel ih =>
+      intro x r h
+      simp only [iterate] at h
+      cases hstep : serveStep x with
+      | error e => rw [hstep] at h; simp at h
+      | ok st =>
+        rw [hstep] at h
+        obtain ⟨w, hw⟩ := serveStep_suffix x st hstep
+        cases st with
+        | done r' => simp only [pure, Except.pure, Except.ok.injEq] at h; subst h; exact ⟨w, hw⟩
+        | next y =>
+          simp only [] at h hw
+          obtain ⟨w2, hw2⟩ := ih y r h
+          exact ⟨w ++ w2, by rw [List.append_assoc, ← hw2]; exact hw⟩
+  exact this _ _ r h
+
+/-! ## the decoded path is the path sent; the file opened lies under the root -/
+
+theorem hexDigit_facts : ∀ n, n < 256 → ∀ x, hexVal (UInt8.ofNat n) = some x →
+    x < 16 ∧ UInt8.ofNat n ≠ 0 ∧ cIsSpace (UInt8.ofNat n) = false ∧ UInt8.ofNat n ≠ 45 ∧ UInt8.ofNat n ≠ 43 := by
+  decide +kernel
+
+/-- `%xy` with two hexadecimal digits (either letter case) decodes to the byte `16·x + y` -/
+theorem hexByte_spec (a b : UInt8) (x y : Nat) (ha : hexVal a = some x) (hb : hexVal b = some y) :
+    hexByte a b = UInt8.ofNat (16 * x + y) := by
+  have fa := byte_cases (fun c => ∀ x, hexVal c = some x → x < 16 ∧ c ≠ 0 ∧ cIsSpace c = false ∧ c ≠ 45 ∧ c ≠ 43)
+    hexDigit_facts a x ha
+  have fb := byte_cases (fun c => ∀ x, hexVal c = some x → x < 16 ∧ c ≠ 0 ∧ cIsSpace c = false ∧ c ≠ 45 ∧ c ≠ 43)
+    hexDigit_facts b y hb
+  unfold hexByte
+  have hc : cstr [a, b] = [a, b] := cstr_of_no_nul _ (by
+    intro c hc
+    simp only [List.mem_cons, List.not_mem_nil, or_false] at hc
+    rcases hc with rfl | rfl
+    · exact fa.2.1
+    · exact fb.2.1)
+  rw [hc]
+  unfold strtoul16
+  have hdw : [a, b].dropWhile cIsSpace = [a, b] := dropWhile_head_false _ _ _ fa.2.2.1
+  have hsign : stripSign [a, b] = (false, [a, b]) := by
+    unfold stripSign
+    split
+    · rename_i t heq; simp only [List.cons.injEq] at heq; exact absurd heq.1 fa.2.2.2.1
+    · rename_i t heq; simp only [List.cons.injEq] at heq; exact absurd heq.1 fa.2.2.2.2
+    · rfl
+  have hpre : strip0x [a, b] = [a, b] := by
+    unfold strip0x
+    split
+    · rename_i x' h' t heq; simp at heq
+    · rfl
+  simp only [hdw, hsign, hpre, hexDigits, ha, hb]
+  have : ¬ ((0 * 16 + x) * 16 + y ≥ 2 ^ 64) := by
+    have := fa.1; have := fb.1
+    have : (2 : Nat) ^ 64 > 256 := by decide
+    omega
+  simp only [this, if_false, Bool.false_eq_true]
+  congr 1
+  omega
+
+theorem urlDecodeSpec_plain (s : Bytes) (h : ∀ c ∈ s, c ≠ 37) : urlDecodeSpec s = s := by
+  induction s with
+  | nil => rfl
+  | cons c t ih =>
+    have hc : (c == 37) = false := by simpa using h c (by simp)
+    rw [urlDecodeSpec_ne _ _ hc, ih (fun x hx => h x (by simp [hx]))]
+
+/-- for a target without `?` and `#`: the path handed over is the percent-decoded target (cut at a decoded NUL),
+    unchanged whenever that contains no `..`; query and fragment are empty -/
+theorem parseTarget_plain (raw : Bytes) (hq : ∀ c ∈ raw, c ≠ 35 ∧ c ≠ 63)
+    (hdd : hasDD (cstr (urlDecodeSpec raw)) = false) :
+    ∃ t, parseTarget raw = .ok t ∧ t.path = cstr (urlDecodeSpec raw) ∧ t.query = [] ∧ t.fragment = [] := by
+  have hnone : ∀ c : UInt8, (c = 35 ∨ c = 63) → findByte c (cstr raw) = none := by
+    intro c hc
+    cases hf : findByte c (cstr raw) with
+    | none => rfl
+    | some k =>
+      exfalso
+      obtain ⟨hk, hg, _⟩ := findByte_some hf
+      obtain ⟨r, hr⟩ := cstr_prefix raw
+      have hmem : c ∈ raw := by
+        rw [hr]
+        apply List.mem_append_left
+        rw [← hg]
+        simp only [List.getD_eq_getElem?_getD, List.getElem?_eq_getElem hk, Option.getD_some]
+        exact List.getElem_mem hk
+      rcases hc with rfl | rfl
+      · exact (hq _ hmem).1 rfl
+      · exact (hq _ hmem).2 rfl
+  unfold parseTarget splitTarget indexOfByteFrom?
+  simp only [Nat.zero_le, if_true, List.drop_zero, hnone 35 (Or.inl rfl), hnone 63 (Or.inr rfl), Option.map_none,
+    pure, Except.pure, bind, Except.bind, splitFragment, splitQuery]
+  rw [substring?_ok _ _ _ (Nat.zero_le _) (Nat.le_refl _)]
+  simp only [List.drop_zero, Nat.sub_zero, List.take_length]
+  unfold sanitize
+  rw [urlDecode_eq_spec]
+  simp only [bind, Except.bind, pure, Except.pure, hdd, Bool.false_eq_true, if_false]
+  exact ⟨_, rfl, rfl, rfl, rfl⟩
+
+/-- `localRel` always starts with `/`, and adds no `..` and no NUL to a path that has none -/
+theorem localRel_spec (path : Bytes) (hdd : hasDD path = false) (hn : ∀ c ∈ path, c ≠ 0) :
+    ∃ rel, localRel path = 47 :: rel ∧ hasDD (47 :: rel) = false ∧ ∀ c ∈ rel, c ≠ 0 := by
+  have happ : ∀ (p : Bytes), hasDD p = false → p.getLast? = some 47 → hasDD (p ++ sIndexHtml) = false := by
+    intro p
+    induction p with
+    | nil => intro _ h; simp at h
+    | cons a t ih =>
+      intro hp hl
+      cases t with
+      | nil =>
+        simp only [List.getLast?_singleton, Option.some.injEq] at hl
+        subst hl; decide
+      | cons b t' =>
+        simp only [hasDD, Bool.or_eq_false_iff] at hp
+        have := ih hp.2 (by simpa [List.getLast?_cons_cons] using hl)
+        simp only [List.cons_append, hasDD, Bool.or_eq_false_iff]
+        exact ⟨hp.1, this⟩
+  have hidx : ∀ c ∈ sIndexHtml, c ≠ 0 := by decide
+  unfold localRel
+  simp only []
+  by_cases hh : (path.head? == some 47) = true
+  · obtain ⟨t, rfl⟩ : ∃ t, path = 47 :: t := by
+      cases path with
+      | nil => simp at hh
+      | cons a t => simp at hh; exact ⟨t, by rw [hh]⟩
+    simp only [hh, if_true]
+    have hnt : ∀ c ∈ t, c ≠ 0 := fun c hc => hn c (by simp [hc])
+    split
+    · rename_i hl
+      refine ⟨t ++ sIndexHtml, rfl, ?_, ?_⟩
+      · have := happ (47 :: t) hdd (by simpa using hl)
+        simpa using this
+      · intro c hc
+        rcases List.mem_append.mp hc with hc | hc
+        · exact hnt c hc
+        · exact hidx c hc
+    · exact ⟨t, rfl, hdd, hnt⟩
+  · simp only [hh, Bool.false_eq_true, if_false]
+    have h47 : hasDD (47 :: path) = false := by
+      cases path with
+      | nil => rfl
+      | cons a t => simp only [hasDD, Bool.or_eq_false_iff]; exact ⟨by simp [dot], hdd⟩
+    split
+    · rename_i hl
+      refine ⟨path ++ sIndexHtml, rfl, ?_, ?_⟩
+      · have := happ (47 :: path) h47 (by simpa using hl)
+        simpa using this
+      · intro c hc
+        rcases List.mem_append.mp hc with hc | hc
+        · exact hn c hc
+        · exact hidx c hc
+    · exact ⟨path, rfl, h47, hn⟩
 
 end AslProofs.HttpDispatch
